@@ -19,6 +19,9 @@ package main
 
 import (
 	"fmt"
+	"runtime"
+	"sort"
+	"strings"
 
 	"verifharness/common"
 
@@ -92,7 +95,7 @@ func lower(src string) (*ir.Module, string, error) {
 func guarded(f func() (int, error)) (res map[string]any) {
 	defer func() {
 		if r := recover(); r != nil {
-			res = map[string]any{"panic": fmt.Sprint(r)}
+			res = map[string]any{"panic": fmt.Sprint(r) + " @ " + panicSite()}
 		}
 	}()
 	n, err := f()
@@ -100,6 +103,28 @@ func guarded(f func() (int, error)) (res map[string]any) {
 		return map[string]any{"err": err.Error()}
 	}
 	return map[string]any{"ok": true, "len": n}
+}
+
+// panicSite names the innermost naga function on the stack of a recovered panic
+// (the site of the crash), so that different crashes get different keys.
+func panicSite() string {
+	pcs := make([]uintptr, 64)
+	n := runtime.Callers(3, pcs)
+	frames := runtime.CallersFrames(pcs[:n])
+	for {
+		f, more := frames.Next()
+		if strings.Contains(f.Function, "github.com/gogpu/naga") {
+			fn := f.Function
+			if i := strings.LastIndex(fn, "/"); i >= 0 {
+				fn = fn[i+1:]
+			}
+			return fn
+		}
+		if !more {
+			break
+		}
+	}
+	return "?"
 }
 
 func pipelineConstants(j *job) ir.PipelineConstants {
@@ -225,6 +250,63 @@ func runSet(src string, j *job, set map[string]any, eps []ir.EntryPoint) map[str
 	return out
 }
 
+// features: the module properties the applicability rules of option sets look at
+// (computed here so that the caller does not need the full IR dump for them).
+func features(mod *ir.Module) []string {
+	set := map[string]bool{}
+	for _, t := range mod.Types {
+		switch t.Inner.(type) {
+		case ir.AtomicType:
+			set["atomics"] = true
+		case ir.RayQueryType, ir.AccelerationStructureType:
+			set["ray_query"] = true
+		}
+	}
+	var walk func(b ir.Block)
+	walk = func(b ir.Block) {
+		for i := range b {
+			switch k := b[i].Kind.(type) {
+			case ir.StmtAtomic, ir.StmtImageAtomic:
+				set["atomics"] = true
+			case ir.StmtRayQuery:
+				set["ray_query"] = true
+			case ir.StmtBlock:
+				walk(k.Block)
+			case ir.StmtIf:
+				walk(k.Accept)
+				walk(k.Reject)
+			case ir.StmtSwitch:
+				for _, c := range k.Cases {
+					walk(c.Body)
+				}
+			case ir.StmtLoop:
+				walk(k.Body)
+				walk(k.Continuing)
+			}
+		}
+	}
+	for i := range mod.Functions {
+		walk(mod.Functions[i].Body)
+	}
+	for i := range mod.EntryPoints {
+		walk(mod.EntryPoints[i].Function.Body)
+	}
+	if len(mod.Overrides) > 0 {
+		set["overrides"] = true
+		for _, o := range mod.Overrides {
+			if o.Init == nil {
+				set["override_without_default"] = true
+			}
+		}
+	}
+	out := []string{}
+	for k := range set {
+		out = append(out, k)
+	}
+	sort.Strings(out)
+	return out
+}
+
 func doRun(j *job, res map[string]any) {
 	src := j.Source()
 	mod, stage, err := lower(src)
@@ -238,6 +320,7 @@ func doRun(j *job, res map[string]any) {
 		eps = append(eps, []any{ep.Name, int(ep.Stage)})
 	}
 	res["eps"] = eps
+	res["features"] = features(mod)
 	if j.Wants("ir") {
 		res["ir"] = common.Dump(mod)
 	}
@@ -255,6 +338,9 @@ func doRun(j *job, res map[string]any) {
 			vs = append(vs, m)
 		}
 		res["validate"] = vs
+		if len(vs) > 0 && j.Wants("ir_if_invalid") && !j.Wants("ir") {
+			res["ir"] = common.Dump(mod)
+		}
 	}
 	if j.Wants("compile") {
 		r := guarded(func() (int, error) {
